@@ -269,9 +269,18 @@ inductive Op
   | link (iface : Option Iface) (res : Resolver)
   | call
 
-/-- one API call; a context that has reported an error is not used any more -/
+/-- an error after which the context is not used any more.  A failed `MIR_link`
+(`MIR_undeclared_op_ref_error`, the error function longjmps out) is NOT fatal: the caller may
+register the missing name and link again; `err` then only remembers that some call has failed. -/
+def State.fatal (s : State) : Bool :=
+  match s.err with
+  | none => false
+  | some .undeclaredOpRef => false
+  | some _ => true
+
+/-- one API call -/
 def step (s : State) (op : Op) : State :=
-  if s.err.isSome then s
+  if s.fatal then s
   else match op with
     | .loadModule id ds => loadModule s id ds
     | .loadExternal n a => loadExternal s n a
